@@ -3323,10 +3323,13 @@ func (bc *Blockchain) GetTestHistoricVM(t trigger.Type, tx *transaction.Transact
 	}
 	var mode = mpt.ModeAll
 	if bc.config.RemoveUntraceableBlocks {
-		if b.Index < bc.BlockHeight()-bc.GetMaxTraceableBlocks() {
+		if h, mtb := bc.BlockHeight(), bc.GetMaxTraceableBlocks(); h > mtb && b.Index < h-mtb {
 			return nil, fmt.Errorf("state for height %d is outdated and removed from the storage", b.Index)
 		}
-		mode |= mpt.ModeGCFlag
+		// Nodes carry reference counters in this mode; retained roots other than
+		// the latest one consist of inactive nodes that still must be readable,
+		// so the GC flag is dropped like stateroot.Module does for its readers.
+		mode = mpt.ModeLatest
 	}
 	if b.Index < 1 || b.Index > bc.BlockHeight()+1 {
 		return nil, fmt.Errorf("unsupported historic chain's height: requested state for %d, chain height %d", b.Index, bc.blockHeight)
